@@ -36,7 +36,15 @@ def adversarial_pair(rng, tf):
     p = rng.randint(2, 9)
     other_input = rng.choice(("high", "low", "open"))
     kind = rng.choice(("substring", "substring", "helper_sma", "helper_stdev", "helper_tr", "tf_suffix",
-                       "override_prefix", "suffix", "helper_class", "helper_class", "shared_args"))
+                       "override_prefix", "suffix", "helper_class", "helper_class", "shared_args", "case_only"))
+    if kind == "case_only":
+        # two names that differ only in the case of their letters
+        cls = rng.choice(("SMA", "EMA", "RSI", "StandardDeviation"))
+        if rng.random() < 0.5:
+            return (_spec(cls, {"period": p}, fullname_override="trend"),
+                    _spec(cls, {"period": p + 1}, fullname_override="TREND"), kind)
+        return (_spec(cls, {"period": p}, name_suffix="a"),
+                _spec(cls, {"period": p, "input_value": other_input}, name_suffix="A"), kind)
     if kind == "shared_args":
         # two wrapped movement functions given as configuration dicts whose "args" is the SAME dict object
         # (the common argument written once by the caller), each with a loose keyword of its own
